@@ -13,7 +13,7 @@
 (*  family "adr": one entry x base x index x scale x boundary displacement   *)
 (*  family "kat": known answers (byte strings of the manuals' examples and   *)
 (*                of GNU objdump / llvm-objdump listings)                    *)
-EXTENDS X64, TLC
+EXTENDS X64, TLC, SequencesExt
 CONSTANTS Deep, Fams
 
 VARIABLES fam, c
@@ -155,21 +155,26 @@ Kat == <<
     <<<<72, 141, 195>>, Bad("ud")>>, <<<<6>>, Bad("ud")>>, <<<<72, 139>>, Bad("short")>>, <<<<72, 139, 132>>, Bad("short")>>,
     <<<<72, 139, 5, 1, 2, 3>>, Bad("short")>>, <<<<103, 139, 0>>, Bad("unsupported")>>, <<<<72, 102, 139, 0>>, Bad("unsupported")>> >>
 
+\* the instance sets are constants, computed once (constant level: LET values are cached there, not inside actions)
+TableSeq == SetToSeq(Table)
+InstSeq == Mk([j \in 1..Len(TableSeq) |-> SetToSeq(IF Representative(TableSeq[j]) THEN Inst(TableSeq[j]) ELSE Few(TableSeq[j]))])
+AdrEntry == CHOOSE e \in Table : e.map = 1 /\ e.op = 139
+AdrSeq == Mk([b \in 1..18 |-> SetToSeq({Build(AdrEntry, 64, Reg(9, 64), m, One, 0) :
+                                          m \in {x \in MemAll(64) : x.base = (IF b = 17 THEN None ELSE IF b = 18 THEN RIP ELSE b - 1)}})])
+
 \* ---- state machine: one state per case
 Init == fam = "none" /\ c = Nil
 PickFam == fam = "none" /\ fam' \in Fams /\ c' = Nil
 PickByte == fam = "fld" /\ c = Nil /\ UNCHANGED fam /\ \E v \in 0..255 : c' = [k |-> "byte", v |-> v]
 PickInt == fam = "fld" /\ c = Nil /\ UNCHANGED fam /\ \E v \in Disps \cup {-2, 2, 65535, 65536, -65536, 16777215, 16777216, -16777216, -16777217} :
                c' = [k |-> "int", v |-> v]
-PickTab == fam = "tab" /\ c = Nil /\ UNCHANGED fam /\ \E e \in Table : c' = [k |-> "tab", e |-> e]
-PickEntry == fam = "enc" /\ c = Nil /\ UNCHANGED fam /\ \E e \in Table : c' = [k |-> "entry", e |-> e]
+PickTab == fam = "tab" /\ c = Nil /\ UNCHANGED fam /\ \E j \in 1..Len(TableSeq) : c' = [k |-> "tab", e |-> TableSeq[j]]
+PickEntry == fam = "enc" /\ c = Nil /\ UNCHANGED fam /\ \E j \in 1..Len(TableSeq) : c' = [k |-> "entry", j |-> j]
 PickInst == fam = "enc" /\ c.k = "entry" /\ UNCHANGED fam
-            /\ \E i \in (IF Representative(c.e) THEN Inst(c.e) ELSE Few(c.e)) : c' = [k |-> "ins", e |-> c.e, i |-> i]
-AdrEntry == CHOOSE e \in Table : e.map = 1 /\ e.op = 139
-PickAdrBase == fam = "adr" /\ c = Nil /\ UNCHANGED fam /\ \E b \in 0..16 : c' = [k |-> "adr-", b |-> b]
+            /\ \E n \in 1..Len(InstSeq[c.j]) : c' = [k |-> "ins", e |-> TableSeq[c.j], i |-> InstSeq[c.j][n]]
+PickAdrBase == fam = "adr" /\ c = Nil /\ UNCHANGED fam /\ \E b \in 1..18 : c' = [k |-> "adr-", b |-> b]
 PickAdr == fam = "adr" /\ c.k = "adr-" /\ UNCHANGED fam
-           /\ \E m \in {x \in MemAll(64) : x.base = (IF c.b = 16 THEN None ELSE c.b) \/ (c.b = 16 /\ x.base = RIP)} :
-                  c' = [k |-> "ins", e |-> AdrEntry, i |-> Build(AdrEntry, 64, Reg(9, 64), m, One, 0)]
+           /\ \E n \in 1..Len(AdrSeq[c.b]) : c' = [k |-> "ins", e |-> AdrEntry, i |-> AdrSeq[c.b][n]]
 PickKat == fam = "kat" /\ c = Nil /\ UNCHANGED fam /\ \E n \in 1..Len(Kat) : c' = [k |-> "kat", n |-> n]
 Next == PickFam \/ PickByte \/ PickInt \/ PickTab \/ PickEntry \/ PickInst \/ PickAdrBase \/ PickAdr \/ PickKat
 
